@@ -94,3 +94,85 @@ class concat_bookkeeping:
         for d in docs:
             some_empty = disj(some_empty, len(d.measure_start_tree_stages) == 0)
         return {'ValueError': len(contents) == 0, 'Exception': some_empty}
+
+
+# ------------------------------------------------------------------------------------------------ any number of fragments: loop head and loop step
+@contract(GEN + 'Generic.concat', props=['C19'], name='concat_loop_head', use_at_calls=False)
+class concat_loop_head:
+    """At the head of `for content in contents` (any number of fragments): nothing imported yet, the accumulated text is empty, the
+    index list is empty, the first pair will start at 0, the separator is the given one ('\\n' when none is given); an empty
+    fragment list never gets here (ValueError)."""
+    cut = 'for content in contents'
+
+    def inputs(g):
+        contents = g.seq('contents', lambda e: e.str_sym('fragment', ['**kern\n4c\n', '=1\n4d\n']))
+        sep = None if g.choice('separator.none', [True, False]) else g.str_sym('separator', ['\n', '', ' '])
+        return {'cls': Generic, 'contents': contents, 'separator': sep, '_given': sep}
+
+    def raises(contents):
+        return {'ValueError': len(contents) == 0}
+
+    def cut_nothing_accumulated(raw_kern, indexes, low_index, document):
+        return conj(raw_kern == '', len(indexes) == 0, low_index == 0, document is None)
+
+    def cut_separator(separator, given):
+        return separator == ('\n' if given is None else given)
+
+    def cut_no_import_yet():
+        return ghost_get('create.calls', 0) == 0
+
+
+@contract(GEN + 'Generic.concat', props=['C19'], name='concat_step')
+class concat_step:
+    """One iteration of `for content in contents` from an arbitrary state of the loop (any text accumulated so far, any pairs
+    recorded so far, any running start index): exactly one import, of the accumulated text + separator + this fragment; exactly one
+    pair is appended, (running start, measure count of the document just imported); the earlier pairs are untouched; the next
+    start is that measure count + 1; the document kept is the one just imported.  With concat_loop_head (state at the first
+    iteration) this gives, by induction over the fragments (meta-argument A-concat-induction): the k-th import is the k-th prefix,
+    pair k = (to_{k-1} + 1, measures of prefix k), pair 0 starts at 0 -- for every number of fragments."""
+    step = 'for content in contents'
+    uses = ('create_summary_for_concat',)
+    assumes = (A_CREATE, 'A-concat-induction: loop head + step give the whole-loop statement by induction over the fragments; the statements after the loop '
+                         '(document is None test, return of document and pairs) are covered by concat_bookkeeping')
+
+    def inputs(g):
+        content = g.str_sym('content', ['**kern\n4c\n', '=1\n4d\n', '=2\n4e\n4f\n', '*-\n'])
+        raw = g.str_sym('raw_kern', ['', '\n**kern\n4c\n=1\n4d\n'])
+        sep = g.str_sym('separator', ['\n', ''])
+        low = g.int('low_index')
+        high = g.int('high_index')
+        indexes = g.mlist('indexes', lambda e: (e.int('lo'), e.int('hi')))
+        if g.symbolic:
+            doc = mk_counted_document(g, 0)
+            ghost_set('create.documents', [doc])
+        else:
+            try:
+                doc = Generic.create(raw + sep + content)[0]
+            except Exception:
+                g.assume(False)
+                doc = None
+        return {'cls': Generic, 'contents': [content], 'content': content, 'separator': sep, 'raw_kern': raw, 'document': None,
+                'indexes': indexes, 'low_index': low, 'high_index': high,
+                '_raw_before': raw, '_low_before': low, '_indexes_before': indexes.copy(), '_doc': doc}
+
+    def modifies_objs(indexes):
+        return [indexes]
+
+    def raises(doc):
+        return {'Exception': len(doc.measure_start_tree_stages) == 0}
+
+    def post_text_accumulated(raw_kern, raw_before, separator, content):
+        return raw_kern == raw_before + separator + content
+
+    def post_one_import_of_the_new_prefix(raw_before, separator, content):
+        return ghost_get('create.texts', ()) == (raw_before + separator + content,)
+
+    def post_one_pair_appended(indexes, indexes_before, low_before, doc):
+        return indexes == indexes_before + [(low_before, len(doc.measure_start_tree_stages))]
+
+    def post_next_start_and_document(low_index, high_index, document, doc):
+        M = len(doc.measure_start_tree_stages)
+        return conj(high_index == M, low_index == M + 1, same_document(document, doc))
+
+    def post_loop_goes_on(flow):
+        return flow == 'next'
